@@ -37,7 +37,7 @@ type (
 	}
 	EIdx   struct{ X, I Expr }
 	ESlice struct{ X, Lo, Hi Expr }
-	ELet struct {
+	ELet   struct {
 		Name string
 		Val  Expr
 		Body Expr
